@@ -141,9 +141,8 @@ Definition split (c : chunker) (i : nat) (hwin : list N) : nat * bytes * chunker
    {| c_rd := c_rd c; c_min := c_min c; c_max := c_max c; c_d := c_d c; c_start := c_start c + i;
       c_buf := skipn i (c_buf c); c_eof := c_eof c; c_hval := 0%N; c_hwin := hwin; c_hidx := 0 |}).
 
-(* Chunker.Next *)
-Definition next (c0 : chunker) : nat * bytes * chunker :=
-  let c := if length (c_buf c0) <? c_max c0 then fill_buffer c0 else c0 in
+(* Chunker.Next after the optional refill *)
+Definition next_core (c : chunker) : nat * bytes * chunker :=
   let n := length (c_buf c) in
   if n <=? c_min c then split c n (c_hwin c)
   else
@@ -156,6 +155,10 @@ Definition next (c0 : chunker) : nat * bytes * chunker :=
                                           (c_d c) h0 window (c_hidx c) in
       (* copy(c.hWindow[:], window) fills the ring from slot 0; the loop starts at c.hIdx (reset by split) *)
       split c (N.to_nat pos) hwin.
+
+(* Chunker.Next *)
+Definition next (c0 : chunker) : nat * bytes * chunker :=
+  next_core (if length (c_buf c0) <? c_max c0 then fill_buffer c0 else c0).
 
 (* all chunks until the empty one *)
 Fixpoint next_all (fuel : nat) (c : chunker) : list (nat * bytes) :=
